@@ -204,13 +204,13 @@ def drive(item):
     if with_cli:
         sb = cli_defs.sandbox()
         s2 = dict(scn, hash=False, hrec={t: "same" for t in scn["T"]}, b={t: "U" for t in scn["T"]}, sel=[])
-        perm = dict(defs.NAME_PERMS[variant % 3], E="echo", G="golf")
-        saved = defs.NAME_PERMS[variant % 3]
-        defs.NAME_PERMS[variant % 3] = perm
+        perm = dict(defs.NAME_PERMS[variant % len(defs.NAME_PERMS)], E="echo", G="golf")
+        saved = defs.NAME_PERMS[variant % len(defs.NAME_PERMS)]
+        defs.NAME_PERMS[variant % len(defs.NAME_PERMS)] = perm
         try:
             cli_defs.setup_project(sb, s2, variant, "slurm", extra_conf={"use_spec_hashes": True})
         finally:
-            defs.NAME_PERMS[variant % 3] = saved
+            defs.NAME_PERMS[variant % len(defs.NAME_PERMS)] = saved
         # some tracked jobs so that `cancel` would have something to do
         sb.write(".gwf/slurm-backend-tracked.json", json.dumps({perm[t]: "9%d" % k for k, t in enumerate(scn["T"])}))
         sb.write(".gwf/spec-hashes.json", json.dumps({perm[t]: "0" * 40 for t in scn["T"]}))
